@@ -20,6 +20,7 @@ import time
 from concurrent.futures import ThreadPoolExecutor
 
 VERIF = os.path.dirname(os.path.dirname(os.path.abspath(__file__)))
+TAG = os.environ.get("VC_TAG", "")      # several instances may run side by side with different tags
 BASELINE_FAIL = {"test_japanese_vowels", "test_scikitlearn_initializer", "test_scikitlearn_multioutput",
                  "test_fast_spectral_features[1.0-0.0]", "test_random_sparse_scalings[shape6-2.0-None-kwargs6-sparse]"}
 
@@ -33,7 +34,7 @@ def sh(cmd, env=None, timeout=3600, cwd=None):
 
 
 def one(it, k, head):
-    vw, wt = "/tmp/vcw_%d" % k, "/tmp/vcr_%d" % k
+    vw, wt = "/tmp/vcw%s_%d" % (TAG, k), "/tmp/vcr%s_%d" % (TAG, k)
     name, prop = it["name"], it["prop"]
     res = {"property": prop, "name": name, "repo_head": head}
     rc, out = sh("git -C %s apply %s" % (wt, os.path.abspath(it["patch"])))
@@ -47,7 +48,7 @@ def one(it, k, head):
         rc1, out1 = sh("/venv/bin/python %s" % os.path.abspath(it["demo"]), env=dict(env, PYTHONPATH=wt), cwd="/tmp", timeout=900)
         res["demo_on_unchanged"], res["demo_with_change"], res["demo_output_with_change"] = rc0, rc1, out1[-600:]
         t0 = time.time()
-        tmpd = "/tmp/vct_%d" % k
+        tmpd = "/tmp/vct%s_%d" % (TAG, k)
         shutil.rmtree(tmpd, ignore_errors=True)
         os.makedirs(tmpd)
         rc, out = sh("cd %s && TMPDIR=%s PYTHONPATH=%s /venv/bin/python -m pytest -q -p no:cacheprovider --timeout=900 reservoirpy 2>&1 | tail -15" % (wt, tmpd, wt),
@@ -99,10 +100,10 @@ def main():
     j = min(j, len(items))
     slots = queue.Queue()
     for k in range(j):
-        sh("git -C /repo worktree remove --force /tmp/vcr_%d; rm -rf /tmp/vcw_%d /tmp/vcr_%d" % (k, k, k))
-        rc, out = sh("git -C /repo worktree add --detach /tmp/vcr_%d HEAD" % k)
+        sh("git -C /repo worktree remove --force /tmp/vcr%s_%d; rm -rf /tmp/vcw%s_%d /tmp/vcr%s_%d" % (TAG, k, TAG, k, TAG, k))
+        rc, out = sh("git -C /repo worktree add --detach /tmp/vcr%s_%d HEAD" % (TAG, k))
         assert rc == 0, out
-        rc, out = sh("rsync -a --exclude .git --exclude build --exclude replays --exclude seeded %s/ /tmp/vcw_%d/" % (VERIF, k))
+        rc, out = sh("rsync -a --exclude .git --exclude build --exclude replays --exclude seeded %s/ /tmp/vcw%s_%d/" % (os.environ.get("VERIF_SRC", VERIF), TAG, k))
         assert rc == 0, out
         slots.put(k)
 
@@ -124,7 +125,7 @@ def main():
             list(ex.map(job, items))
     finally:
         for k in range(j):
-            sh("git -C /repo worktree remove --force /tmp/vcr_%d; rm -rf /tmp/vcw_%d /tmp/vcr_%d /tmp/vct_%d" % (k, k, k, k))
+            sh("git -C /repo worktree remove --force /tmp/vcr%s_%d; rm -rf /tmp/vcw%s_%d /tmp/vcr%s_%d /tmp/vct%s_%d" % (TAG, k, TAG, k, TAG, k, TAG, k))
         sh("git -C /repo worktree prune")
 
 
